@@ -30,7 +30,7 @@ RECURSIVE Norm(_)
 Norm(t) == LET d == DOMAIN t IN
            [k  |-> t.k, s |-> t.s, o |-> t.o,
             bs |-> IF "bs" \in d THEN t.bs ELSE <<>>,
-            ch |-> IF "ch" \in d THEN [i \in 1..Len(t.ch) |-> Norm(t.ch[i])] ELSE <<>>,
+            ch |-> IF "ch" \in d THEN TLCEval([i \in 1..Len(t.ch) |-> Norm(t.ch[i])]) ELSE <<>>,   \* TLCEval: an explicit sequence, not a lazy function
             ty |-> IF "ty" \in d THEN t.ty ELSE IF t.k = "raw" THEN "none" ELSE "file",
             dl |-> IF "dl" \in d THEN t.dl ELSE IF t.k = "in" THEN 0 ELSE t.s,
             md |-> IF "md" \in d THEN t.md ELSE 0]
@@ -43,67 +43,83 @@ TInit == l = 1 /\ files = [h \in Slots |-> NoFile] /\ dev = {} /\ cids = [h \in 
 
 TReset == IsEvent("Reset") /\ files' = [h \in Slots |-> NoFile] /\ cids' = [h \in Slots |-> ""] /\ UNCHANGED dev
 
-\* checks shared by the ideal import and the deviation
-ImportCommon(e, t, sz) ==
-    /\ Chk("leaf sizes = chunks of the input", LeafSizes(t) = (IF sz = <<>> THEN <<0>> ELSE sz))
-    /\ Chk("WellFormed (sizes)", WellFormed(t))
-    /\ Chk("Content = input", ContentOK(t, e.L))
-    /\ Chk("reader returns the input and its length", e.rb /\ e.rsize = e.L)
-    /\ Chk("shape rule", IF e.layout = "bal" THEN BalancedShapeOK(t, e.w) ELSE TrickleShapeOK(t, e.w, e.leaf))
-    /\ Chk("VerifyTrickleDagStructure agrees", e.layout = "tri" => e.vt = "")
+(* TLC does not cache LET definitions while it expands an ACTION, so everything that is decided about
+   an event is computed by a constant-level operator (XxxResult, LETs cached) whose value
+   [ok, rec, dev] is then applied to the state by a small action.                                  *)
 
-TImport ==
-    /\ IsEvent("Import")
-    /\ LET e    == Ev
-           t    == Norm(e.tree)
-           sz   == IF e.L = 0 THEN <<>> ELSE IF e.csz > 0 THEN FixedSizes(e.L, e.csz) ELSE LeafSizes(t)
-           P    == [w |-> e.w, lk |-> e.leaf, sz |-> sz]
-           meta == e.mode # 0 \/ e.mtime # ZeroTime
-           rec(m) == [live |-> TRUE, tree |-> t, w |-> e.w, lk |-> e.leaf, layout |-> e.layout, meta |-> m,
-                      fresh |-> sz, base |-> 0, dv |-> FALSE]
-       IN  /\ e.h \in Slots /\ e.layout \in {"bal", "tri"} /\ e.leaf \in {"raw", "pb"}
-           /\ ImportCommon(e, t, sz)
-           /\ \/ /\ Chk("layout = documented layout", t = LayoutOf(e.layout, P, meta))
-                 /\ Chk("mode/mtime as requested", MetaOK(t, meta) /\ e.gmode = e.mode /\ e.gmtime = e.mtime)
-                 /\ files' = [files EXCEPT ![e.h] = rec(meta)] /\ UNCHANGED dev
-              \/ \* open finding: balanced + raw leaves + at most one chunk + metadata => bare raw root, metadata lost
-                 /\ "Dev_C07_RawRootDropsMeta" \in Devs
-                 /\ e.layout = "bal" /\ e.leaf = "raw" /\ meta /\ Len(sz) <= 1
-                 /\ t = BalancedLayoutAsBuilt(P, meta) /\ e.gmode = 0 /\ e.gmtime = ZeroTime
-                 /\ files' = [files EXCEPT ![e.h] = rec(FALSE)] /\ dev' = dev \cup {"Dev_C07_RawRootDropsMeta"}
-           /\ cids' = [cids EXCEPT ![e.h] = e.cid]
+\* FileOK (the module invariant for one file), with the failing conjunct named when it does not hold
+FileChecks(f) ==
+    IF FileOK(f) THEN TRUE
+    ELSE /\ Chk("leaf sizes = chunks of the input", LeafSizes(f.tree) = (IF f.fresh = <<>> THEN <<0>> ELSE f.fresh))
+         /\ Chk("WellFormed (sizes)", WellFormed(f.tree))
+         /\ Chk("Content = input", ContentOK(f.tree, Sum(f.fresh)))
+         /\ Chk("only the root carries mode/mtime, iff requested", MetaOK(f.tree, f.meta))
+         /\ Chk("shape rule", IF f.layout = "bal" THEN BalancedShapeOK(f.tree, f.w) ELSE f.dv \/ TrickleShapeOK(f.tree, f.w, f.lk))
+         /\ Chk("leaf kind", IsLeaf(f.tree) \/ LeafKindOK(f.tree, f.lk, LeafTy(f.layout)))
+         /\ FALSE
 
-\* "Importing the same input with the same parameters always yields the same root CID"
-TReimport == /\ IsEvent("Reimport") /\ files[Ev.h].live
-             /\ Chk("Deterministic root CID", Ev.cid = cids[Ev.h])
-             /\ UNCHANGED <<files, dev, cids>>
+ImportResult(e) ==
+    LET t    == Norm(e.tree)
+        sz   == IF e.L = 0 THEN <<>> ELSE IF e.csz > 0 THEN FixedSizes(e.L, e.csz) ELSE LeafSizes(t)
+        P    == [w |-> e.w, lk |-> e.leaf, sz |-> sz]
+        meta == e.mode # 0 \/ e.mtime # ZeroTime
+        rec(m) == [live |-> TRUE, tree |-> t, w |-> e.w, lk |-> e.leaf, layout |-> e.layout, meta |-> m,
+                   fresh |-> sz, base |-> 0, dv |-> FALSE]
+        pre  == e.h \in Slots /\ e.layout \in {"bal", "tri"} /\ e.leaf \in {"raw", "pb"} /\ Sum(sz) = e.L
+        obs  == /\ Chk("reader returns the input and its length", e.rb /\ e.rsize = e.L)
+                /\ Chk("VerifyTrickleDagStructure agrees", e.layout = "tri" => e.vt = "")
+        ideal == /\ Chk("layout = documented layout", t = LayoutOf(e.layout, P, meta))
+                 /\ FileChecks(rec(meta))
+                 /\ Chk("reader reports the requested mode/mtime", e.gmode = e.mode /\ e.gmtime = e.mtime)
+        \* open finding: balanced + raw leaves + at most one chunk + metadata => bare raw root, metadata lost
+        asbuilt == /\ "Dev_C07_RawRootDropsMeta" \in Devs
+                   /\ e.layout = "bal" /\ e.leaf = "raw" /\ meta /\ Len(sz) <= 1
+                   /\ t = BalancedLayoutAsBuilt(P, meta) /\ e.gmode = 0 /\ e.gmtime = ZeroTime
+                   /\ FileChecks(rec(FALSE))
+    IN  IF ~(pre /\ obs) THEN [ok |-> FALSE]
+        ELSE IF ideal THEN [ok |-> TRUE, h |-> e.h, rec |-> rec(meta), dev |-> {}, cid |-> e.cid]
+        ELSE IF asbuilt THEN [ok |-> TRUE, h |-> e.h, rec |-> rec(FALSE), dev |-> {"Dev_C07_RawRootDropsMeta"}, cid |-> e.cid]
+        ELSE [ok |-> FALSE]
 
-TAppend ==
-    /\ IsEvent("Append")
-    /\ LET e   == Ev
-           b   == files[e.from]
-           t   == Norm(e.tree)
-           nsz == IF e.csz > 0 THEN FixedSizes(e.L2, e.csz)
-                  ELSE LET a == LeafSizes(t) k == IF b.fresh = <<>> THEN 0 ELSE Len(b.fresh)
-                       IN  IF e.L2 = 0 THEN <<>> ELSE SubSeq(a, k + 1, Len(a))
-           all == b.fresh \o nsz
-       IN  /\ e.from \in Slots /\ e.h \in Slots /\ b.live /\ b.layout = "tri"
-           /\ Chk("leaf sizes = old leaves ++ chunks of the appended bytes",
-                  LeafSizes(t) = (IF all = <<>> THEN <<0>> ELSE all))
+AppendResult(e, b) ==
+    LET t   == Norm(e.tree)
+        nsz == IF e.csz > 0 THEN FixedSizes(e.L2, e.csz)
+               ELSE LET a == LeafSizes(t) IN IF e.L2 = 0 THEN <<>> ELSE SubSeq(a, Len(b.fresh) + 1, Len(a))
+        all == b.fresh \o nsz
+        rec(d) == [b EXCEPT !.tree = t, !.fresh = all, !.base = 0, !.dv = d]
+        pre == b.live /\ b.layout = "tri" /\ e.h \in Slots /\ Sum(nsz) = e.L2
+        common ==
+           /\ Chk("leaf sizes = old leaves ++ chunks of the appended bytes", LeafSizes(t) = (IF all = <<>> THEN <<0>> ELSE all))
            /\ Chk("sizes consistent, content = old content ++ new bytes", AppendContentOK(b.tree, t, e.L2))
            /\ Chk("reader returns old ++ new and its length", e.rb /\ e.rsize = b.tree.s + e.L2)
-           /\ \/ /\ Chk("trickle shape rule", TrickleShapeOK(t, b.w, b.lk))
-                 /\ Chk("VerifyTrickleDagStructure agrees", e.vt = "")
-                 /\ UNCHANGED dev /\ files' = [files EXCEPT ![e.h] = [b EXCEPT !.tree = t, !.fresh = all, !.base = 0]]
-              \/ \* open finding: the node ended on a layer boundary and Append continues one level too deep
-                 /\ "Dev_C08_AppendTooDeep" \in Devs
-                 /\ ~TrickleShapeOK(t, b.w, b.lk) /\ e.vt = "child dag was too deep"
-                 /\ t = AsBuiltAppend(b.tree, [w |-> b.w, lk |-> b.lk, sz |-> nsz])
-                 /\ dev' = dev \cup {"Dev_C08_AppendTooDeep"}
-                 /\ files' = [files EXCEPT ![e.h] = [b EXCEPT !.tree = t, !.fresh = all, !.base = 0, !.dv = TRUE]]
-           \* informational (C08 does not demand it): does the append continue the fresh layout?
-           /\ IF t = TrickleLayout([w |-> b.w, lk |-> b.lk, sz |-> all], b.meta) THEN TRUE ELSE PrintT(<<"INFO_NOT_FRESH", l>>)
-           /\ cids' = [cids EXCEPT ![e.h] = ""]
+        ideal ==
+           /\ Chk("trickle shape rule", TrickleShapeOK(t, b.w, b.lk))
+           /\ Chk("VerifyTrickleDagStructure agrees", e.vt = "")
+           /\ FileChecks(rec(FALSE))
+        \* open finding: the node ended on a layer boundary and Append continues one level too deep
+        asbuilt ==
+           /\ "Dev_C08_AppendTooDeep" \in Devs
+           /\ ~TrickleShapeOK(t, b.w, b.lk) /\ e.vt = "child dag was too deep"
+           /\ t = AsBuiltAppend(b.tree, [w |-> b.w, lk |-> b.lk, sz |-> nsz])
+           /\ FileChecks(rec(TRUE))
+        \* informational (C08 does not demand it): does the append continue the fresh layout?
+        fresh == IF t = TrickleLayout([w |-> b.w, lk |-> b.lk, sz |-> all], b.meta) THEN TRUE ELSE PrintT(<<"INFO_NOT_FRESH", l>>)
+    IN  IF ~(pre /\ common) THEN [ok |-> FALSE]
+        ELSE IF ideal THEN [ok |-> fresh, h |-> e.h, rec |-> rec(FALSE), dev |-> {}, cid |-> ""]
+        ELSE IF asbuilt THEN [ok |-> TRUE, h |-> e.h, rec |-> rec(TRUE), dev |-> {"Dev_C08_AppendTooDeep"}, cid |-> ""]
+        ELSE [ok |-> FALSE]
+
+Apply(r) == /\ r.ok
+            /\ files' = [files EXCEPT ![r.h] = r.rec]
+            /\ cids' = [cids EXCEPT ![r.h] = r.cid]
+            /\ dev' = dev \cup r.dev
+
+TImport == IsEvent("Import") /\ Apply(ImportResult(Ev))
+TAppend == IsEvent("Append") /\ Ev.from \in Slots /\ Apply(AppendResult(Ev, files[Ev.from]))
+
+\* "Importing the same input with the same parameters always yields the same root CID"
+ReimportOK(e) == files[e.h].live /\ Chk("Deterministic root CID", e.cid = cids[e.h])
+TReimport == IsEvent("Reimport") /\ ReimportOK(Ev) = TRUE /\ UNCHANGED <<files, dev, cids>>
 
 TNext == TReset \/ TImport \/ TReimport \/ TAppend
 TSpec == TInit /\ [][TNext]_tvars
@@ -111,4 +127,6 @@ TSpec == TInit /\ [][TNext]_tvars
 TraceConstraint == TLCSet(1, IF l - 1 > TLCGet(1) THEN l - 1 ELSE TLCGet(1))
 TracePost == PrintT(<<"TRACE_HWM", TLCGet(1)>>)
 DevReport == l <= Len(Trace) \/ \A d \in dev : PrintT(<<"DEV_USED", d>>)
+\* FileOK of every stored file is established by the action that stores it (FileChecks); files never change afterwards
+StoredFilesChecked == \A h \in Slots : files[h].live => files[h].tree.k \in {"raw", "pb", "in"}
 =============================================================================
